@@ -1147,6 +1147,9 @@ var ruleParseResults = &core.Rule{ID: "R08.3", Min: 4,
 					if _, bulk := bulkSettlements(m, g, ibF)[st]; bulk {
 						okInc = true // the amounts are R08.6's
 					}
+					if m.fam[g] && wholeSettlement(m, g, ibF) == st {
+						okInc = true
+					}
 					s.Check(okInc, key, c.Pos(st.Pos()), "+1 per inspected byte (or reset to 0)", "the inspected-bytes counter is changed other than by +1 per byte looked at")
 				}
 			}
@@ -1180,6 +1183,10 @@ var ruleAccounting = &core.Rule{ID: "R08.6", Min: 18,
 		sort.Slice(ws, func(i, j int) bool { return ws[i].Name() < ws[j].Name() })
 		units = append(units, ws...)
 		for _, f := range units {
+			if st := wholeSettlement(m, f, ibF); st != nil && m.fam[f] {
+				s.OK(f.Name()+": whole-function inspected-byte settlement", c.Pos(st.Pos()), "one ib += position dominating every return; returns are 0 or that position; no scanner call")
+				continue
+			}
 			chain := countChain(f)
 			// range-over-literal idiom: return len(X) after a full range over parameter X
 			exempt := map[*ssa.BasicBlock]bool{}
@@ -1430,6 +1437,64 @@ func bulkSettlements(m *jsonModel, f *ssa.Function, ibF int) map[*ssa.Store]map[
 		}
 	}
 	return out
+}
+
+// wholeSettlement recognises the form in which a scanner function works on a
+// local position only and settles the inspected-byte counter once: exactly one
+// store ib = ib + v in f, outside any loop and dominating every return; no call
+// into the scanner family (which would count by itself); no other access to
+// the counter; and every return is either the failure 0 or v itself. Then the
+// counter advances by exactly the position the function reports.
+func wholeSettlement(m *jsonModel, f *ssa.Function, ibF int) *ssa.Store {
+	var st *ssa.Store
+	n := 0
+	for _, b := range f.Blocks {
+		for _, in := range b.Instrs {
+			switch x := in.(type) {
+			case *ssa.Store:
+				if fa, ok := x.Addr.(*ssa.FieldAddr); ok && fa.Field == ibF && m.isState(fa.X.Type()) {
+					st = x
+					n++
+				}
+			case ssa.CallInstruction:
+				if g := x.Common().StaticCallee(); g != nil && (m.fam[g] || m.wrap[g]) {
+					return nil
+				}
+			}
+		}
+	}
+	if n != 1 || st == nil {
+		return nil
+	}
+	bo, ok := st.Val.(*ssa.BinOp)
+	if !ok || bo.Op != token.ADD {
+		return nil
+	}
+	fa := st.Addr.(*ssa.FieldAddr)
+	if b2, f2, isLd := core.LoadOfField(bo.X); !isLd || f2 != ibF || b2 != fa.X {
+		return nil
+	}
+	v := bo.Y
+	if !core.IsInteger(v.Type()) || reachSelf(st.Block()) {
+		return nil
+	}
+	// no other read of the counter
+	for _, b := range f.Blocks {
+		for _, in := range b.Instrs {
+			if _, fld, isLd := core.LoadOfField(valueOf(in)); isLd && fld == ibF && valueOf(in) != bo.X {
+				return nil
+			}
+		}
+	}
+	for _, r := range core.Returns(f) {
+		if !st.Block().Dominates(r.Block()) {
+			return nil
+		}
+		if !core.IsConstInt(r.Results[0], 0) && r.Results[0] != v {
+			return nil
+		}
+	}
+	return st
 }
 
 func ibIncrements(m *jsonModel, b *ssa.BasicBlock, ibF int) int {
